@@ -74,6 +74,21 @@ func (StdEng) denseRepeat(t, reuse DenseTensor, newShape Shape, axis, size int, 
 			t = mt
 		}
 	}
+	// ... and so is any other row-major operand whose strides are not those of a plain array (the clone of a
+	// vector-shaped view is flagged contiguous but keeps the leading stride of the view's parent)
+	if dt, ok := t.(*Dense); ok && !dt.IsScalar() && dt.o.IsRowMajor() && dt.old.IsZero() && len(dt.strides) == len(dt.shape) {
+		canonical := dt.shape.CalcStrides()
+		for i := range canonical {
+			if dt.strides[i] != canonical[i] { // (also on length-one axes: the block copy below steps by them)
+				m := recycledDense(dt.t, dt.shape.Clone(), WithEngine(dt.e))
+				if _, cerr := copyDenseIter(m, dt, nil, nil); cerr == nil {
+					t = m
+				}
+				break
+			}
+		}
+		ReturnInts(canonical)
+	}
 
 	var outers int
 	if t.IsScalar() {
